@@ -34,6 +34,8 @@ func main() {
 		cmdSSA(os.Args[2:])
 	case "list":
 		cmdList(os.Args[2:])
+	case "diag":
+		cmdDiag(os.Args[2:])
 	case "baseline":
 		cmdBaseline(os.Args[2:])
 	default:
